@@ -139,4 +139,40 @@ example :
     (step (step s (.interest 1 i [] 0)).1 (.data 2 { name := i.name, content := 9, tok := .six 0 })).2 = [.data 1 i.name 9 [7]] := by
   decide
 
+/-- Which faces are non-local (the scope a transport must assign; compared with the REAL transport
+    constructors by the `scope` operations of the harness, clause `C09-scope-classification`): a
+    Unix-stream face is Local; a unicast TCP/UDP face is Local exactly when its remote address is a
+    loopback address. -/
+theorem scope_classification_spec (kind addr : String) :
+    scopeLocal "unix" addr = true ∧
+    (isLoopbackText addr = true → scopeLocal kind addr = true) ∧
+    (kind ≠ "unix" → isLoopbackText addr = false → scopeLocal kind addr = false) := by
+  refine ⟨by simp [scopeLocal], ?_, ?_⟩
+  · intro h; simp [scopeLocal, h]
+  · intro hk h; simp [scopeLocal, h, hk]
+
+/-- a face whose scope is the one the specification assigns to a non-loopback remote address is covered by
+    the guards: after it has been added, no /localhost packet is ever sent on it, whatever follows -/
+theorem nonloopback_face_never_gets_localhost (s : St) (id : FaceId) (kind addr : String) (lt : Link) (op : Op)
+    (hk : kind ≠ "unix") (ha : isLoopbackText addr = false) (snd : Send)
+    (h : snd ∈ (step (step s (.addFace ⟨id, scopeLocal kind addr, lt⟩)).1 op).2) (hf : snd.face = id) :
+    specLocalhost snd.name = false := by
+  have hloc : scopeLocal kind addr = false := (scope_classification_spec kind addr).2.2 hk ha
+  have := localhost_never_sent_nonlocal _ op snd h
+  cases hl : specLocalhost snd.name with
+  | false => rfl
+  | true =>
+    exfalso
+    apply this
+    refine ⟨?_, hl⟩
+    rw [hf]
+    simp only [step, nonLocal, faceOf]
+    rw [List.find?_append]
+    have : (List.filter (fun x => x.id != id) s.faces).find? (fun x => x.id == id) = none := by
+      rw [List.find?_eq_none]
+      intro x hx
+      have := (List.mem_filter.mp hx).2
+      simpa using this
+    simp [this, hloc]
+
 end Ndn.Fw.C09
